@@ -27,7 +27,7 @@ MANIFEST = {
             "and SLIP-32 deserialisers, WIF, BIP-38, EC key byte constructors, master keys and FromSeedAndPath of the SLIP-0010 "
             "and Khovratovich-Law/Icarus/Byron-legacy classes, Bip44-family constructors, Monero/Substrate/Electrum key and wallet "
             "constructors, the 40 address decoder classes (58 census entries) incl. Monero, Shelley, Byron) that the exception-faithful model never leaves the "
-            "documented family, for all inputs and arbitrary hash/KDF/curve oracles; for all 239 str/bytes entry points "
+            "documented family, for all inputs and arbitrary hash/KDF/curve oracles; for all 242 str/bytes entry points "
             "(enumerated from the package): junk + structure-aware mutation run checking the exception class and a wall-clock "
             "bound, and for every one of them a differential comparison with the extracted model on the same inputs.",
     "note": "Every census entry point now has a model and a theorem; what remains outside proof: the models are hand "
@@ -43,11 +43,17 @@ MANIFEST = {
 }
 RULE = ("Inputs per entry point: fixed junk list (empty, 1-3 symbols, NUL, non-ASCII, non-BMP, lone surrogate, "
         "over-long) + mutations of valid seeds (all truncations, extensions, splices, single-symbol flips, case "
-        "changes, payload-level corruption re-encoded with a valid checksum: Base58Check, Bech32/Bech32m/CashAddr, CBOR-level "
-        "mutations of Byron addresses under a valid CRC-32 by an own CBOR encoder, Monero payloads under a valid Keccak "
-        "checksum, HD-path plaintexts under a valid Poly1305 tag).  Every entry point is in addition "
-        "compared with its model (cases 'model:<entry>') on the junk list, the seeds and a sample of the mutations (half of it "
-        "from the payload-level ones; 140 per first-wave entry, 50 per second-wave entry, 10 where every model call runs "
+        "changes) + payload-level corruption (every short prefix, truncation / extension by 1, 8, 32 bytes, version / net "
+        "byte changes, field swaps, bit flips) re-encoded under a VALID checksum by the harness's own codecs for every "
+        "checksummed text format (table FORMATS: Base58Check incl. Ripple alphabet, EOS, Ergo, Monero block Base58 + "
+        "Keccak, SS58, Algorand, Stellar CRC16, Nano / Filecoin blake2b, Nimiq IBAN check; Bech32 / Bech32m / CashAddr at "
+        "5-bit and at byte level incl. header, witness version and length changes; CBOR-level mutations of Byron "
+        "addresses under a valid CRC-32 by an own CBOR encoder; HD-path plaintexts under a valid Poly1305 tag) + "
+        "cross-feeding: every valid example of every text decoder goes through every other text decoder and parameter "
+        "variant (payment id None / wrong length, other network), one representative per distinct error site recorded "
+        "and model-compared.  Every entry point is in addition compared with its model (cases 'model:<entry>') on the "
+        "junk list, the seeds, the cross-fed representatives and a sample of the mutations (half of it from the "
+        "payload-level ones; 120 per first-wave entry, 40 per second-wave entry, 10 where every model call runs "
         "reference EC multiplications); inputs over 1500 symbols are model-compared for the path parsers only.")
 TRUSTED = ["the reflective census (dir(bip_utils) + name patterns) defines the obligation list"]
 ASSUMPTIONS = ["third-party libraries (coincurve, PyNaCl, cbor2, ecdsa) raise what they are observed to raise"]
@@ -130,6 +136,16 @@ def build():
     E("XmrIntegratedAddrDecoder.DecodeAddr", "str",
       lambda s: XmrIntegratedAddrDecoder.DecodeAddr(s, net_ver=mconf.IntegratedAddrNetVersion(), payment_id=bytes(range(8))),
       [mon.IntegratedAddress(bytes(range(8)))])
+    # parameter variants: no / wrong-length payment id expected, the other network's version bytes
+    E("XmrIntegratedAddrDecoder.DecodeAddr[payment_id=None]", "str",
+      lambda s: XmrIntegratedAddrDecoder.DecodeAddr(s, net_ver=mconf.IntegratedAddrNetVersion(), payment_id=None),
+      [mon.IntegratedAddress(bytes(range(8))), mon.PrimaryAddress()])
+    E("XmrIntegratedAddrDecoder.DecodeAddr[payment_id=7 bytes]", "str",
+      lambda s: XmrIntegratedAddrDecoder.DecodeAddr(s, net_ver=mconf.IntegratedAddrNetVersion(), payment_id=bytes(7)),
+      [mon.IntegratedAddress(bytes(range(8)))])
+    mtest = MoneroConfGetter.GetConfig(MoneroCoins.MONERO_TESTNET)
+    E("XmrAddrDecoder.DecodeAddr[MONERO_TESTNET]", "str", lambda s: XmrAddrDecoder.DecodeAddr(s, net_ver=mtest.AddrNetVersion()),
+      [Monero.FromSeed(SEED[:32], MoneroCoins.MONERO_TESTNET).PrimaryAddress(), mon.PrimaryAddress()])
     sub = Substrate.FromSeed(SEED[:32], SubstrateCoins.POLKADOT)
     sa = sub.PublicKey().ToAddress()
     E("SubstrateSr25519AddrDecoder.DecodeAddr", "str", lambda s: SubstrateSr25519AddrDecoder.DecodeAddr(s, ss58_format=0), [sa])
@@ -371,21 +387,169 @@ def mutate_bytes(b, rng, budget):
     return out
 
 
+# ---- own reference codecs for the payload-level mutations (nothing below goes through bip_utils: the corrupted
+#      payload must be re-encoded under a VALID checksum by code that is independent of the library under test)
+B58_BTC = "123456789ABCDEFGHJKLMNPQRSTUVWXYZabcdefghijkmnopqrstuvwxyz"
+B58_XRP = "rpshnaf39wBUDNEGHJKLM4PQRST7VWXYZ2bcdeCg65jkm8oFqi1tuvAxyz"
+
+
+def b58e(b, alph=B58_BTC):
+    n = int.from_bytes(b, "big")
+    out = ""
+    while n:
+        n, r = divmod(n, 58)
+        out = alph[r] + out
+    return alph[0] * (len(b) - len(b.lstrip(b"\x00"))) + out
+
+
+def b58d(s, alph=B58_BTC):
+    n = 0
+    for c in s:
+        n = n * 58 + alph.index(c)          # ValueError on a foreign symbol
+    body = n.to_bytes((n.bit_length() + 7) // 8, "big")
+    return b"\x00" * (len(s) - len(s.lstrip(alph[0]))) + body
+
+
+def _sha256d4(b):
+    import hashlib
+    return hashlib.sha256(hashlib.sha256(b).digest()).digest()[:4]
+
+
+XMR_ENC_LENS = [0, 2, 3, 5, 6, 7, 9, 10, 11]
+
+
+def xmr58e(b):
+    out = ""
+    for i in range(0, len(b), 8):
+        blk = b[i:i + 8]
+        out += b58e(blk).lstrip("1").rjust(XMR_ENC_LENS[len(blk)], "1")
+    return out
+
+
+def xmr58d(s):
+    out = b""
+    for i in range(0, len(s), 11):
+        blk = s[i:i + 11]
+        n = XMR_ENC_LENS.index(len(blk))
+        out += b58d(blk)[-n:].rjust(n, b"\x00") if n else b""
+    return out
+
+
+def _b32e(b, alph=None):
+    import base64
+    t = base64.b32encode(b).decode().rstrip("=")
+    return t if alph is None else t.translate(str.maketrans("ABCDEFGHIJKLMNOPQRSTUVWXYZ234567", alph))
+
+
+def _b32d(t, alph=None):
+    import base64
+    if alph is not None:
+        if any(c not in alph for c in t):
+            raise ValueError(t)
+        t = t.translate(str.maketrans(alph, "ABCDEFGHIJKLMNOPQRSTUVWXYZ234567"))
+    return base64.b32decode(t + "=" * (-len(t) % 8))
+
+
+def _blake2b(b, n):
+    import hashlib
+    return hashlib.blake2b(b, digest_size=n).digest()
+
+
+def _keccak(b):
+    from Crypto.Hash import keccak
+    return keccak.new(digest_bits=256, data=b).digest()
+
+
+def _ripemd160(b):
+    from Crypto.Hash import RIPEMD160
+    return RIPEMD160.new(b).digest()
+
+
+def _sha512_256(b):
+    from Crypto.Hash import SHA512
+    return SHA512.new(b, truncate="256").digest()
+
+
+def _crc16_xmodem_le(b):
+    import binascii
+    return binascii.crc_hqx(b, 0).to_bytes(2, "little")
+
+
+NANO_ALPH, FIL_ALPH, NIM_ALPH = "13456789abcdefghijkmnopqrstuwxyz", "abcdefghijklmnopqrstuvwxyz234567", "0123456789ABCDEFGHJKLMNPQRSTUVXY"
+
+
+def _nim_check(b32):
+    return "%02d" % (98 - int("".join(str(int(c, 36)) for c in b32 + "NQ00")) % 97)
+
+
+def _ss58(prefix_and_payload):
+    return b58e(prefix_and_payload + _blake2b(b"SS58PRE" + prefix_and_payload, 64)[:2])
+
+
+# decoder class -> (unpack: valid address string -> the bytes below the checksum layer,
+#                   pack: bytes -> address string with a VALID checksum / envelope)
+FORMATS = {
+    "b58check": (lambda s: b58d(s)[:-4], lambda p: b58e(p + _sha256d4(p))),
+    "XrpAddrDecoder": (lambda s: b58d(s, B58_XRP)[:-4], lambda p: b58e(p + _sha256d4(p), B58_XRP)),
+    "EosAddrDecoder": (lambda s: b58d(s[3:])[:-4], lambda p: "EOS" + b58e(p + _ripemd160(p)[:4])),
+    "ErgoP2PKHAddrDecoder": (lambda s: b58d(s)[:-4], lambda p: b58e(p + _blake2b(p, 32)[:4])),
+    "SolAddrDecoder": (lambda s: b58d(s), lambda p: b58e(p)),
+    "AlgoAddrDecoder": (lambda s: _b32d(s)[:-4], lambda p: _b32e(p + _sha512_256(p)[-4:])),
+    "XlmAddrDecoder": (lambda s: _b32d(s)[:-2], lambda p: _b32e(p + _crc16_xmodem_le(p))),
+    "NanoAddrDecoder": (lambda s: _b32d("1111" + s[5:], NANO_ALPH)[3:-5],
+                        lambda p: "nano_" + _b32e(bytes(3) + p + _blake2b(p, 5)[::-1], NANO_ALPH)[4:]),
+    "FilSecp256k1AddrDecoder": (lambda s: _b32d(s[2:], FIL_ALPH)[:-4],
+                                lambda p: "f1" + _b32e(p + _blake2b(b"\x01" + p, 4), FIL_ALPH)),
+    "NimAddrDecoder": (lambda s: _b32d(s.replace(" ", "")[4:], NIM_ALPH),
+                       lambda p: (lambda t: " ".join(("NQ" + _nim_check(t) + t)[k:k + 4] for k in range(0, len(t) + 4, 4)))(_b32e(p, NIM_ALPH))),
+    "ss58": (lambda s: b58d(s)[:-2], _ss58),
+    "xmr": (lambda s: xmr58d(s)[:-4], lambda p: xmr58e(p + _keccak(p)[:4])),
+}
+FORMAT_OF = {"P2PKHAddrDecoder": "b58check", "P2SHAddrDecoder": "b58check", "NeoLegacyAddrDecoder": "b58check",
+             "NeoN3AddrDecoder": "b58check", "TrxAddrDecoder": "b58check", "XtzAddrDecoder": "b58check",
+             "SubstrateEd25519AddrDecoder": "ss58", "SubstrateSr25519AddrDecoder": "ss58", "SS58Decoder": "ss58",
+             "XmrAddrDecoder": "xmr", "XmrIntegratedAddrDecoder": "xmr"}
+
+
+def payload_variants(pl, rng):
+    """Corruptions of the bytes below a checksum layer: every short prefix, truncation and extension by 1 / 8 / 32 bytes
+    at either end, first-byte (version / net / type) changes, fills, bit flips."""
+    n = len(pl)
+    out = [pl[:i] for i in range(min(n, 12) + 1)] + [pl[:max(n - k, 0)] for k in (1, 2, 4, 8, 9, 32, 33)] + [pl[k:] for k in (1, 2, 8, 32)]
+    for k in (1, 8, 32):
+        out += [pl + bytes(k), pl + b"\xff" * k, pl + bytes(range(k)), bytes(k) + pl, pl + pl[:k]]
+    out += [pl + pl, bytes(n), b"\xff" * n, pl[::-1]]
+    if n:
+        out += [bytes([pl[0] ^ x]) + pl[1:] for x in (1, 2, 8, 0x40, 0x80, 0xff)] + [bytes([b]) + pl[1:] for b in (0, 1, 5, 0x12, 0x13, 0x2a, 0x30, 0x90)]
+        out += [pl[:-1] + bytes([pl[-1] ^ 1]), pl[:1] + b"\xff" * (n - 1), pl[:1] + bytes(n - 1), pl[:1] + b"\x01" + bytes(max(n - 2, 0))]
+        for _ in range(10):
+            i = rng.randrange(n)
+            out.append(pl[:i] + bytes([pl[i] ^ (1 << rng.randrange(8))]) + pl[i + 1:])
+    if n > 40:      # the middle fields (second key / hash) and a trailing field of 8 bytes (payment id) dropped / replaced
+        out += [pl[:n // 2] + b"\xff" * (n - n // 2), pl[:33] + bytes(n - 33), pl[:-8], pl[:-8] + bytes(8), pl[:1] + pl[33:65] + pl[1:33] + pl[65:]]
+    return out
+
+
 def payload_mutations(name, s, rng):
-    """Corrupt below the checksum layer and re-encode with a valid checksum."""
-    out = []
+    """Corrupt below the checksum layer and re-encode with a valid checksum (own codecs, FORMATS)."""
+    e = ENTRIES.get(name) or {}
+    dname = e["meta"][0] if e.get("meta") else name.split(".")[0]
+    fmt = FORMAT_OF.get(dname, dname)
+    if fmt not in FORMATS:
+        fmt = "b58check"            # extended keys, WIF, BIP-38, SLIP-32 ...: Base58Check if the seed is one
+    unpack, pack = FORMATS[fmt]
     try:
-        if "Bech32" in name or s[:3] in ("bc1", "cos"):
-            return out
-        raw = Base58Decoder.CheckDecode(s)
-        for i in list(range(len(raw) + 1))[:80]:
-            out.append(Base58Encoder.CheckEncode(raw[:i]))
-        for _ in range(12):
-            i = rng.randrange(len(raw))
-            out.append(Base58Encoder.CheckEncode(raw[:i] + bytes([raw[i] ^ 0xff]) + raw[i + 1:]))
-        out.append(Base58Encoder.CheckEncode(raw + b"\x00"))
+        pl = unpack(s)
+        if pack(pl).replace(" ", "") != s.replace(" ", ""):
+            return []               # the seed is not of this format
     except Exception:  # noqa
-        pass
+        return []
+    out = []
+    for v in payload_variants(pl, rng):
+        try:
+            out.append(pack(v))
+        except Exception:  # noqa
+            pass
     return out
 
 
@@ -430,6 +594,23 @@ def cashaddr_make(hrp, data5):
     return hrp + ":" + "".join(B32[d] for d in data5 + [(pm >> 5 * (7 - i)) & 31 for i in range(8)])
 
 
+def _cvt(data, frm, to, pad):
+    acc = bits = 0
+    out = []
+    for v in data:
+        acc = (acc << frm) | v
+        bits += frm
+        while bits >= to:
+            bits -= to
+            out.append((acc >> bits) & ((1 << to) - 1))
+    if pad:
+        if bits:
+            out.append((acc << (to - bits)) & ((1 << to) - 1))
+    elif bits >= frm or ((acc << (to - bits)) & ((1 << to) - 1)):
+        return None
+    return out
+
+
 def bech32_family_mutations(s, rng):
     out = []
     low = s.lower()
@@ -455,6 +636,17 @@ def bech32_family_mutations(s, rng):
         if data:
             i = rng.randrange(len(data))
             variants.append(data[:i] + [rng.randrange(32)] + data[i + 1:])
+    # byte-level variants of the payload under the 5-bit layer (header / length / version changes): the whole data part as
+    # bytes (Bech32, CashAddr: first byte = header / version byte) and first symbol + program (SegWit)
+    for lead, body in (([], data), (data[:1], data[1:])):
+        b8 = _cvt(body, 5, 8, False)
+        if b8 is None:
+            continue
+        for v in payload_variants(bytes(b8), rng):
+            variants.append(lead + _cvt(list(v), 8, 5, True))
+        if lead:
+            for ver in (0, 1, 2, 15, 16, 17, 31):
+                variants.append([ver] + body)
     for v in variants:
         for m in mk:
             out.append(m(v))
@@ -524,17 +716,18 @@ def byron_addr(payload_obj, tag=24, crc=None, outer=None):
     import binascii
     p = payload_obj if isinstance(payload_obj, (bytes, bytearray)) else cb(payload_obj)
     o = [CTag(tag, bytes(p)), binascii.crc32(p) if crc is None else crc] if outer is None else outer
-    return Base58Encoder.Encode(cb(o))
+    return b58e(cb(o))
 
 
 def byron_payload_mutations(s, rng):
     import binascii
     out = []
     try:
-        dec = AdaByronAddrDecoder.DecodeAddr(s)
+        import cbor2
+        pay = cbor2.loads(cbor2.loads(b58d(s))[0].value)       # the valid seed, read with the reference decoder
+        rh, enc = pay[0], (cbor2.loads(pay[1][1]) if 1 in pay[1] else b"")
     except Exception:  # noqa
         return out
-    rh, enc = dec[:28], dec[28:]
     a_ok = {1: cb(enc)} if enc else {}
     attrs = [{}, a_ok, {1: cb(bytes(range(40)))}, {1: 5}, {1: "a"}, {1: [1]}, {1: None}, {1: True}, {2: 5}, {2: "x"}, {2: None},
              {2: cb(764824073)}, {1: cb(enc or b"x"), 2: cb(7)}, {1: cb(5)}, {1: cb("xx")}, {1: cb([1, 2])}, {1: cb(None)},
@@ -569,30 +762,6 @@ def byron_payload_mutations(s, rng):
               [CTag(24, pl[:-1]), binascii.crc32(pl[:-1])], [CTag(24, pl + b"\x00"), binascii.crc32(pl + b"\x00")],
               [CTag(24, b""), 0], CRaw(b"\x9f" + cb(CTag(24, pl)) + cb(crc) + b"\xff"), CRaw(cb([CTag(24, pl), crc]) + b"\x00")):
         out.append(byron_addr(pl, outer=o))
-    return out
-
-
-def xmr_payload_mutations(s, rng):
-    """Monero addresses: corrupt net byte / keys / payment id / length below the Keccak checksum and re-encode."""
-    from Crypto.Hash import keccak
-    out = []
-    try:
-        raw = Base58XmrDecoder.Decode(s)
-    except Exception:  # noqa
-        return out
-    pl = raw[:-4]
-
-    def mk(p):
-        return Base58XmrEncoder.Encode(p + keccak.new(digest_bits=256, data=p).digest()[:4])
-    var = [pl[:i] for i in (0, 1, 2, 32, 33, 34, 64, 65, 66, 72, 73)] + [pl + b"\x00", pl + bytes(8), pl + bytes(range(8)), pl[1:],
-           bytes([pl[0] ^ 1]) + pl[1:], b"\x13" + pl[1:], b"\x2a" + pl[1:], pl[:1] + b"\xff" * 32 + pl[33:], pl[:33] + b"\xff" * 32 + pl[65:],
-           pl[:1] + bytes(32) + pl[33:], pl[:1] + b"\x01" + bytes(31) + pl[33:], pl[:33] + b"\x02" + bytes(31) + pl[65:],
-           pl[:65] + bytes(8), pl[:65] + bytes(range(8)), pl[:65] + bytes(7), pl[:65] + bytes(9), pl[:1] + pl[33:65] + pl[1:33] + pl[65:]]
-    for _ in range(8):
-        i = rng.randrange(len(pl))
-        var.append(pl[:i] + bytes([pl[i] ^ (1 << rng.randrange(8))]) + pl[i + 1:])
-    for p in var:
-        out.append(mk(p))
     return out
 
 
@@ -924,7 +1093,7 @@ def build_model_map():
         if n in heavy or n.endswith("Bip32.FromSeed") or n.endswith("Bip32.FromSeedAndPath") or n.startswith("Bip32KholawEd25519.FromSeed"):
             MM[n].cap = (10, 150)
         else:
-            MM[n].cap = MM[n].cap or (50, 600)
+            MM[n].cap = MM[n].cap or (40, 600)
     for n in MM:
         assert n in ENTRIES, "MODEL_MAP names an entry point that is not in the census: " + n
 
@@ -974,6 +1143,12 @@ def build_model_map_c14b(MM):
     MM["XmrAddrDecoder.DecodeAddr"] = M(lambda m, x: m.call("cardmon.xmr_addr_decode", x, mconf.AddrNetVersion(), []))
     MM["XmrIntegratedAddrDecoder.DecodeAddr"] = M(
         lambda m, x: m.call("cardmon.xmr_addr_decode", x, mconf.IntegratedAddrNetVersion(), [bytes(range(8))]))
+    MM["XmrIntegratedAddrDecoder.DecodeAddr[payment_id=None]"] = M(
+        lambda m, x: m.call("cardmon.xmr_addr_decode", x, mconf.IntegratedAddrNetVersion(), []))
+    MM["XmrIntegratedAddrDecoder.DecodeAddr[payment_id=7 bytes]"] = M(
+        lambda m, x: m.call("cardmon.xmr_addr_decode", x, mconf.IntegratedAddrNetVersion(), [bytes(7)]))
+    mtest = MoneroConfGetter.GetConfig(MoneroCoins.MONERO_TESTNET)
+    MM["XmrAddrDecoder.DecodeAddr[MONERO_TESTNET]"] = M(lambda m, x: m.call("cardmon.xmr_addr_decode", x, mtest.AddrNetVersion(), []))
     # ---- Monero wallet constructors (C16): [ctor; a; b; net 0 = main; op 0 = keys]; outcome class (objects)
     c16 = _props("C16")
     view = Monero.FromSeed(SEED[:32]).PrivateViewKey().Raw().ToBytes()
@@ -1099,15 +1274,44 @@ for _n in ENTRIES:
         FUNCS["model:" + _n] = _model_func(_n)
 
 
+def is_text_decoder(name):
+    """address decoders and text codecs: the entry points whose valid examples are fed to each other"""
+    return ENTRIES[name]["kind"] == "str" and not ENTRIES[name]["slow"] and \
+        ("DecodeAddr" in name or name.split("[")[0].endswith("Decoder.Decode"))
+
+
+def cross_pool():
+    """every valid example of every text decoder (cross-feeding: each is also an input of all the others)"""
+    pool, seen = [], set()
+    for n in sorted(ENTRIES):
+        if is_text_decoder(n):
+            for sd in ENTRIES[n]["seeds"]:
+                if sd not in seen and 8 <= len(sd) <= 200:
+                    seen.add(sd)
+                    pool.append(sd)
+    return pool
+
+
+def error_site(name, x):
+    """where the implementation stops on x: 'ok' or exception class + the constant head of its message"""
+    import re
+    try:
+        ENTRIES[name]["call"](x)
+        return "ok"
+    except Exception as ex:  # noqa
+        return type(ex).__name__ + ":" + re.split(r"[(0-9'\"]", str(ex))[0][:40]
+
+
 def generate(ctx):
     rng = ctx.rng
     import os
     only = os.environ.get("VERIF_ONLY")
     names = sorted(n for n in ENTRIES if not only or any(o in n for o in only.split(",")))
     per = ctx.n(10, 600)
-    mcap0 = ctx.n(140, 900)         # model comparisons per entry point beyond the junk list and the seeds (default)
+    mcap0 = ctx.n(120, 900)         # model comparisons per entry point beyond the junk list and the seeds (default)
     n_model = 0
     truncated = []
+    pool = cross_pool()
     for name in names:
         e = ENTRIES[name]
         deep = []                   # mutations below the checksum / word layer: they reach the inner error sites
@@ -1124,8 +1328,6 @@ def generate(ctx):
                         d += mutate_words(s, rng)
                     if name.startswith("AdaByronAddrDecoder.DecodeAddr"):
                         d += byron_payload_mutations(s, rng)
-                    if name.startswith("Xmr"):
-                        d += xmr_payload_mutations(s, rng)
                     inputs += d
                     deep += d
         else:
@@ -1136,6 +1338,20 @@ def generate(ctx):
             if name == "AdaByronAddrDecoder.DecryptHdPath":
                 deep = byron_hdpath_mutations(BYRON_HD_KEY, rng)
                 inputs += deep
+        must = set()                # always model-compared: one representative per distinct error site of the cross-fed examples
+        if e["kind"] == "str" and is_text_decoder(name):
+            # every example of every other decoder goes through this one (error_site calls it); recorded as cases (and
+            # model-compared) are one representative per distinct error site, and every example that does not end in the family
+            sites, esc = {}, []
+            for x in pool:
+                if x not in e["seeds"]:
+                    k = error_site(name, x)
+                    sites.setdefault(k, x)
+                    if k != "ok" and k.split(":")[0] not in IN_FAMILY and not issubclass(getattr(__import__("builtins"), k.split(":")[0], object), ValueError):
+                        esc.append(x)
+            must = set(list(sites.values())[:ctx.n(10, 40)])
+            inputs += list(must) + esc
+            ctx.dist["cross_fed"] = ctx.dist.get("cross_fed", 0) + len(pool)
         seen, uniq = set(), []
         for x in inputs:
             if x not in seen:
@@ -1143,7 +1359,7 @@ def generate(ctx):
                 uniq.append(x)
         modelled = name in MODEL_MAP and ctx.m is not None
         junk = set(JUNK_STR) | set(JUNK_BYTES)
-        fixed = junk | set(e["seeds"])
+        fixed = junk | set(e["seeds"]) | must
         rest = [x for x in uniq if x not in fixed]
         mcap = ctx.n(*MODEL_MAP[name].cap) if (name in MODEL_MAP and MODEL_MAP[name].cap) else mcap0
         if e["slow"]:
